@@ -110,3 +110,25 @@ Example dependency_hypotheses_inhabited :
   1 < 2 /\ 2 < length c11_witness /\ (exists q, uses (ith c11_witness 1) q /\ uses (ith c11_witness 2) q) /\
   commN commutation_rules true c11_witness 2 1 = false.
 Proof. exact c11_witness_dependency. Qed.
+
+(* ---- the same clause against PHYSICAL non-commutation: with the library's commutation rules (proved sound for the real gate
+        matrices in Proofs/SchedReal.v), an instruction never starts before an earlier instruction on a common qubit whose
+        unitary does not commute with its own has finished - in every phase ring, for all parameter values ---- *)
+From QV Require Import Found.Circ Proofs.SchedReal.
+Theorem respects_physical_dependencies :
+  forall (R : PhaseRing) (env : list Q -> atoms R) allow_permutation instrs alap random sh so, valid_input instrs ->
+  forall fixed ks ko st,
+    sched_pulse commutation_rules allow_permutation instrs alap random sh so fixed ks ko = Some st ->
+  forall i j : nat, (i < j)%nat -> (j < length instrs)%nat ->
+    (exists q, uses (ith instrs i) q /\ uses (ith instrs j) q) ->
+    (exists s, act_real R env (ith instrs j) (act_real R env (ith instrs i) s)
+               <> act_real R env (ith instrs i) (act_real R env (ith instrs j) s)) ->
+    (stt st i + idur (ith instrs i) <= stt st j)%Q.
+Proof.
+  intros R env perm instrs alap random sh so Hv fixed ks ko st Hs i j Hij Hj Hq [s Hne].
+  apply (respects_dependencies commutation_rules perm instrs alap random sh so Hv fixed ks ko st Hs i j Hij Hj Hq).
+  unfold commN. destruct perm; [|reflexivity].
+  destruct (commutation_rules (nth j instrs dummy_instr) (nth i instrs dummy_instr)) eqn:E; [|reflexivity].
+  exfalso. apply Hne. apply (SchedReal.real_H2 R env _ _ E).
+Qed.
+Print Assumptions respects_physical_dependencies.
